@@ -2,7 +2,7 @@
    Statements only; proofs in Proofs/HandshakeP.v. *)
 From Coq Require Import List NArith Bool.
 From Coq Require Import ZArith.
-From WS Require Import Base.Words Gen.Consts Gen.FrameCode Model.Proto Model.Handshake Proofs.HandshakeP Proofs.GenTieP.
+From WS Require Import Base.Words Gen.Consts Gen.FrameCode Model.Proto Model.Handshake Proofs.HandshakeP Proofs.GenTieP Gen.NegoCode Proofs.GenTie2P.
 Import ListNotations.
 
 (* server: compression only if enabled, and only from the FIRST permessage-deflate offer that is acceptable (earlier
@@ -80,3 +80,36 @@ Theorem C14_mode_opts_is_source : forall m,
   mode_opts m = {| cnct := fst (gen_mode_opts (mode_code m)); snct := snd (gen_mode_opts (mode_code m)) |}.
 Proof. exact mode_opts_is_source. Qed.
 Print Assumptions C14_mode_opts_is_source.
+
+(* tie to the source by translation (tools/constx/nego.go, Gen/NegoCode.v, regenerated on every run): the server's treatment of an offer is
+   the duplicate guard and the per-parameter classification of acceptDeflate (literals, prefixes, validWindowBits and flag assignments
+   read off accept.go), the client's treatment of a response the guards, the reset of the server flag and the per-parameter
+   classification of verifyServerExtensions (dial.go) *)
+Theorem C14_accept_deflate_is_source : forall e m,
+  accept_deflate e m =
+  if gen_accept_pre (hs_has_dup (x_params e) []) then None else run_params gen_accept_param (x_params e) (mode_opts m).
+Proof. exact accept_deflate_is_source. Qed.
+Print Assumptions C14_accept_deflate_is_source.
+
+Theorem C14_verify_exts_is_source : forall offer h,
+  verify_exts offer h =
+  let es := hs_exts h in
+  let e := hd ext_default es in
+  match gen_verify_exts_pre (Z.of_nat (length es)) (hs_beq (x_name e) s_pmd)
+          (match offer with Some _ => true | None => false end) (hs_has_dup (x_params e) []) with
+  | 0%Z => VOk None
+  | 1%Z => VErr
+  | _ => match offer with
+         | None => VErr
+         | Some o => match run_params gen_verify_param (x_params e) {| cnct := cnct o; snct := gen_verify_initial_snct (snct o) |} with
+                     | Some c => VOk (Some c)
+                     | None => VErr
+                     end
+         end
+  end.
+Proof. exact verify_exts_is_source. Qed.
+Print Assumptions C14_verify_exts_is_source.
+
+Theorem C14_window_bits_are_source : forall s, hs_valid_bits s = gen_valid_window_bits s.
+Proof. exact valid_bits_is_source. Qed.
+Print Assumptions C14_window_bits_are_source.
